@@ -221,13 +221,13 @@ Definition fill (s : st) (x y w h : Z) (color : option bytes) (k : res) : res :=
 
 (** ---- hextile walk ---- *)
 Definition hex_first (s : st) (x y w h : Z) : res :=
-  if y >=? y + h then do_connection s
+  if (y >=? y + h) || (x >=? x + w) then do_connection s
   else ok s (PHextile None None x y w h x y) [].
 
 Definition hex_next (s : st) (bg fg : option bytes) (x y w h tx ty : Z) : res :=
   let tx1 := tx + 16 in
   let '(tx2, ty2) := if tx1 >=? x + w then (x, ty + 16) else (tx1, ty) in
-  if ty2 >=? y + h then do_connection s
+  if (ty2 >=? y + h) || (tx2 >=? x + w) then do_connection s
   else ok s (PHextile bg fg x y w h tx2 ty2) [].
 
 Definition has (sub flag : Z) : bool := negb (Z.land sub flag =? 0).
@@ -807,6 +807,42 @@ Fixpoint run_client (fuel : nat) (c : client) (chunks : list bytes) : option (li
       | None => None
       | Some (es, c1, n1) =>
           match run_client fuel c1 ds with
+          | Some (es2, c2, n2) => Some (es ++ es2, c2, (n1 + n2)%nat)
+          | None => None
+          end
+      end
+  end.
+
+(** ---- operations the application performs between dataReceived calls ---- *)
+
+(* VNCDoToolClient.refreshScreen / captureScreen / captureRegion: remember the waiter and ask
+   for the whole desktop as last announced *)
+Definition op_capture (c : client) (inc : Z) : list ev * client :=
+  match c with
+  | CRun (Idle s p buf) =>
+      if width s <? 0 then ([], CRun Crashed)        (* AttributeError: no ServerInit yet *)
+      else match framebufferUpdateRequest inc 0 0 (width s) (height s) with
+           | Some b => ([EWrite b], CRun (Idle (s <| waiter := true |>) p buf))
+           | None => ([], CRun Crashed)
+           end
+  | CInitial _ _ => ([], CRun Crashed)
+  | CRun Crashed => ([], c)
+  end.
+
+Inductive item := IChunk (d : bytes) | ICapture (inc : Z).
+
+Fixpoint run_script (fuel : nat) (c : client) (items : list item) : option (list ev * client * nat) :=
+  match items with
+  | [] => Some ([], c, O)
+  | it :: r =>
+      let first := match it with
+                   | IChunk d => feed_client fuel c d
+                   | ICapture inc => let '(es, c') := op_capture c inc in Some (es, c', O)
+                   end in
+      match first with
+      | None => None
+      | Some (es, c1, n1) =>
+          match run_script fuel c1 r with
           | Some (es2, c2, n2) => Some (es ++ es2, c2, (n1 + n2)%nat)
           | None => None
           end
